@@ -6,12 +6,14 @@ Open Scope N_scope.
 (* the identifiers the code uses (generated from the current source) are the ISO ones *)
 Theorem C07_identifiers_iso : forall r, identifier r = iso_identifier r.
 Proof. exact identifier_iso. Qed.
+Print Assumptions C07_identifiers_iso.
 
 (* the counter is incremented before use *)
 Theorem C07_next_iv : forall r c, c + 1 < two32 -> next_iv r c = (c + 1, iso_iv r (c + 1)).
 Proof.
   intros r c H. unfold next_iv. rewrite incr_small by exact H. rewrite iv_iso. reflexivity.
 Qed.
+Print Assumptions C07_next_iv.
 
 (* for every operation sequence of the two session managers (requests, deliveries of arbitrary
    wire messages incl. failed decryptions, prepare / sign / retrieve, serialise-restore of either
@@ -23,6 +25,7 @@ Theorem C07_nth_iv :
     nth_error (ems_of r ems) n = Some e ->
     em_iv e = iso_iv r (N.of_nat n + 1) /\ em_key e = (match r with Reader => kr | Device => kd end).
 Proof. exact nth_iv. Qed.
+Print Assumptions C07_nth_iv.
 
 (* no two encryptions of a session share an IV (hence no (key, IV) pair repeats) *)
 Theorem C07_no_reuse :
@@ -32,10 +35,12 @@ Theorem C07_no_reuse :
     N.of_nat (length (ems_of Device ems)) < two32 ->
     NoDup (map em_iv ems).
 Proof. exact no_reuse. Qed.
+Print Assumptions C07_no_reuse.
 
 Theorem C07_iv_injective :
   forall r r' n m, n < two32 -> m < two32 -> iso_iv r n = iso_iv r' m -> r = r' /\ n = m.
 Proof. exact iso_iv_inj. Qed.
+Print Assumptions C07_iv_injective.
 
 (* non-vacuity: a history with a failed decryption, two rounds and a restore in between *)
 Example C07_ex :
